@@ -240,6 +240,33 @@ ALLK.update(PK)
 ALLK.update(BK)
 ALLK.update(LK)
 
+# "the declared default" as a dimension of its own (fam_default).  For every kind of project option the `value:` keyword is
+#   absent            -> the default that Build-options.md documents for the kind ('implicit'; None = the docs do not say), or
+#   one of 'vals'     -> that value.  vals[0] is the value of the kind that says "nothing" -- the empty string, false, zero, the
+#                        empty array, the first choice, 'disabled' -- and is as much a declared default as any other; the rest are
+#                        the other end of the kind (last choice, a bound of the range, all the choices, 'auto' ...).
+# The same lists are the values with which a higher source overrides the default.
+DK = {
+    'dstr':   {'type': 'string', 'vals': ['', 'sa', 'sb'], 'implicit': ''},
+    'dbool':  {'type': 'boolean', 'vals': [False, True], 'implicit': True},
+    'dint':   {'type': 'integer', 'min': 0, 'max': 9, 'vals': [0, 9, 4], 'implicit': None},        # zero is the lower bound
+    'dintz':  {'type': 'integer', 'min': -3, 'max': 3, 'vals': [0, -3, 3], 'implicit': None},      # zero lies inside the range
+    'dintu':  {'type': 'integer', 'vals': [0, 7], 'implicit': None},                               # no range at all
+    'dcombo': {'type': 'combo', 'choices': ['a', 'b', 'c', 'd'], 'vals': ['a', 'd', 'b'], 'implicit': 'a'},
+    'darr':   {'type': 'array', 'choices': ['x', 'y', 'z'], 'vals': [[], ['y'], ['x', 'y', 'z']], 'implicit': ['x', 'y', 'z']},
+    'darrf':  {'type': 'array', 'vals': [[], ['p'], ['q', 'r']], 'implicit': None},
+    'dfeat':  {'type': 'feature', 'vals': ['disabled', 'auto', 'enabled'], 'implicit': 'auto'},
+}
+DEF_TAGS = ['n', '0', '1', '2']      # n: no `value:` keyword; i: `value:` is vals[i]
+KINDS = {}
+KINDS.update(PK)
+KINDS.update(DK)
+
+
+def dd_name(kind, tag):
+    """One option per (kind, declared default), so that one tier B project can carry every declared default of every kind."""
+    return '%s_%s' % (kind, tag)
+
 BUILDTYPE_TABLE = {  # Builtin-options.md "Details for buildtype": buildtype -> (debug, optimization)
     'plain': (False, 'plain'), 'debug': (True, '0'), 'debugoptimized': (True, '2'), 'release': (False, '3'),
     'minsize': (True, 's'),
@@ -264,7 +291,7 @@ def decl_text(decls):
     """meson.options text.  decls: list of [name, kind, value-or-None, yield]."""
     out = []
     for name, kind, value, yielding in decls:
-        k = PK[kind]
+        k = KINDS[kind]
         parts = ["'%s'" % name, "type: '%s'" % k['type']]
         if 'choices' in k:
             parts.append('choices: ' + lit(k['choices']))
@@ -841,6 +868,125 @@ def ref_valid_kind(k, v):
     if t == 'array':
         return isinstance(v, list) and all(isinstance(x, str) for x in v) and ('choices' not in k or all(x in k['choices'] for x in v))
     return False
+
+
+# ------------------------------------------------------------------------------------------------------------
+# the declared default ("... then the declared default"): the lowest source of every order, in every shape it can have
+DEF_PLACES = {
+    # place: the sources that can stand above the declared default there, each taken alone
+    'top':    ['P', 'M', 'C'],                                  # option of the top-level project
+    'own':    ['S', 'PS', 'SC', 'MS', 'CS'],                    # option that only the subproject declares
+    'shadow': ['P', 'M', 'C', 'S', 'PS', 'SC', 'MS', 'CS'],     # subproject option, yield: false; the parent declares the same name
+    'yield':  ['P', 'M', 'C', 'S', 'PS', 'SC', 'MS', 'CS'],     # subproject option, yield: true: the *parent's* declared default counts
+}
+
+
+def dd_declared(k, tag):
+    """-> (what is written after `value:` or None for no keyword, the default the docs promise or None when they are silent)."""
+    if tag == 'n':
+        return None, k['implicit']
+    v = k['vals'][int(tag)]
+    return v, v
+
+
+def dd_other(k, v):
+    """A value of the kind that differs from v (the declared default of the *other* project's option of the same name)."""
+    return [x for x in k['vals'] if x != v][0]
+
+
+def fam_default(place, cross=False, dict_form=False, mstr=False):
+    """Every kind of project option x every shape of its declared default (no `value:`, each of the kind's values incl. the
+    empty / zero / false / first-choice one) x {no higher source} + {each single higher source of the place x each value of the
+    kind}.  Expected (Build-options.md; Builtin-options.md / Machine-files.md for the order): with no higher source the declared
+    default -- whatever it is -- is the effective value; a higher source replaces it -- also with the empty / zero / false value."""
+    srcs = DEF_PLACES[place]
+    for kind, k in DK.items():
+        for tag in DEF_TAGS:
+            if tag != 'n' and int(tag) >= len(k['vals']):
+                continue
+            name = dd_name(kind, tag)
+            dval, deff = dd_declared(k, tag)
+            for src in [None] + srcs:
+                for oi in ([None] if src is None else range(len(k['vals']))):
+                    scn = new_scn(cross, place != 'top')
+                    scn['dict_form'] = dict_form
+                    ov = None if src is None else k['vals'][oi]
+                    unknown = ['skip', 'no value: keyword: default undocumented for this type']
+                    as_exp = lambda v: ['eq', v] if v is not None else unknown
+                    exp = {}
+                    weak = False
+                    if place == 'top':
+                        scn['top_decl'].append([name, kind, dval, False])
+                        scn['obs'] = [['top', name]]
+                        exp['top:' + name] = as_exp(deff if src is None else ov)
+                    elif place == 'own':
+                        scn['sub_decl'].append([name, kind, dval, False])
+                        scn['obs'] = [['sub', name]]
+                        exp['sub:' + name] = as_exp(deff if src is None else ov)
+                    elif place == 'shadow':
+                        pdef = dd_other(k, deff)
+                        scn['top_decl'].append([name, kind, pdef, False])
+                        scn['sub_decl'].append([name, kind, dval, False])
+                        scn['obs'] = [['top', name], ['sub', name]]
+                        exp['top:' + name] = exp['top2:' + name] = ['eq', ov if src in ('P', 'M', 'C') else pdef]
+                        exp['sub:' + name] = as_exp(ov if src in SUB_ADDRESSED else deff)
+                    else:
+                        sdef = dd_other(k, deff)
+                        scn['top_decl'].append([name, kind, dval, False])
+                        scn['sub_decl'].append([name, kind, sdef, True])
+                        scn['obs'] = [['top', name], ['sub', name]]
+                        parent = ov if src in ('P', 'M', 'C') else deff
+                        exp['top:' + name] = exp['top2:' + name] = as_exp(parent)
+                        if src == 'CS':
+                            exp['sub:' + name] = ['eq', ov]     # "sets the value separately from the option it yields to"
+                        elif src in SUB_ADDRESSED and parent is not None:
+                            exp['sub:' + name] = ['in', [parent, ov]]       # (as in fam_sub: the docs only spell out the -D case)
+                            weak = True
+                        elif src in SUB_ADDRESSED:
+                            exp['sub:' + name] = unknown
+                        else:
+                            exp['sub:' + name] = as_exp(parent)             # "get_option returns the value of the superproject"
+                    if src is not None:
+                        put(scn, src, name, ov, mstr)
+                    yield {'fam': 'default-' + place, 'scn': scn, 'exp': exp, 'reject': 'mustnot', 'weak': weak,
+                           'meta': {'name': name, 'kind': kind, 'place': place, 'tag': tag, 'source': src, 'oi': oi,
+                                    'winner': src or 'D', 'nsrc': 1 + (src is not None)}}
+
+
+def default_counters(case):
+    """Coverage counters of the declared-default dimension: <place>:<kind>:<shape of the default>:<the one higher source | none>."""
+    m = case['meta']
+    if not case['fam'].startswith('default-'):
+        return []
+    if 'kind' in m:
+        return ['%s:%s:%s:%s' % (m['place'], m['kind'], m['tag'], m['source'] or 'none')]
+    return ['%s:%s:%s:%s' % (m['place'], d[1], d[0][-1], m['source'] or 'none')          # a merged tier B project: one per option
+            for d in (case['scn']['top_decl'] if m['place'] in ('top', 'yield') else case['scn']['sub_decl'])]
+
+
+def default_part(dd):
+    """Summary of the counters for the evidence + the list of cells of the dimension that no case hit (must be empty)."""
+    missing = []
+    by_place = {}
+    shapes = {}
+    for place, srcs in DEF_PLACES.items():
+        bp = by_place[place] = {'declared_default_in_effect': 0, 'overridden_by': {s: 0 for s in srcs}}
+        for kind, k in DK.items():
+            for tag in DEF_TAGS:
+                if tag != 'n' and int(tag) >= len(k['vals']):
+                    continue
+                for src in ['none'] + srcs:
+                    n = dd.get('%s:%s:%s:%s' % (place, kind, tag, src), 0)
+                    if not n:
+                        missing.append('%s:%s:%s:%s' % (place, kind, tag, src))
+                    if src == 'none':
+                        bp['declared_default_in_effect'] += n
+                        shapes.setdefault(k['type'], {})
+                        label = 'no value:' if tag == 'n' else lit(k['vals'][int(tag)])
+                        shapes[k['type']][label] = shapes[k['type']].get(label, 0) + n
+                    else:
+                        bp['overridden_by'][src] += n
+    return by_place, shapes, missing
 
 
 # ------------------------------------------------------------------------------------------------------------
@@ -1423,6 +1569,8 @@ def kind_of(name):
         return ALLK[name]
     if name[:1] in 'ytzw' and ('v' + name[1:]) in PK:
         return PK['v' + name[1:]]
+    if name[:-2] in DK and name[-2] == '_':
+        return DK[name[:-2]]
     return None
 
 
@@ -1494,6 +1642,11 @@ def classify(case, okey, e, got):
         src = [s_ for s_ in ('C', 'M', 'P') if any(cstr(v) == cstr(got) for v in vals[s_])]
         return 'C07:precedence:backend-option:%s-in-effect-instead-of-%s' % (src[0] if src else 'default', case['meta']['winner'])
     k = kind_of(name)
+    if fam.startswith('default-') and k is not None:
+        # the declared-default dimension: where the option lives, its kind, and which source should have been in effect
+        src = case['meta'].get('source')
+        return 'C07:default:%s:%s:%s:%s' % (fam[8:], where, k['type'],
+                                            'declared-default-not-in-effect' if src is None else 'with-%s-set' % src)
     return 'C07:value:%s:%s:%s' % (fam, where, (k['type'] if k else name))
 
 
@@ -1592,7 +1745,8 @@ def judge(case, res, tier):
         if parts[0].startswith(('conf', 'cc')) and len(parts) < 3:
             continue
         k = kind_of(parts[-1])
-        if k is not None and got != '<<missing>>' and not ref_valid_kind(k, got) and okey not in case['exp']:
+        # (also where the docs do not say which value it is -- an expectation of the kind 'skip' -- it has to be a valid one)
+        if k is not None and got != '<<missing>>' and not ref_valid_kind(k, got) and (okey not in case['exp'] or case['exp'][okey][0] == 'skip'):
             probs.append(('C07:effective-invalid:%s:%s' % (fam, k['type']), '%s: effective value %r is not a valid %s' % (okey, got, k['type'])))
     return probs, st
 
@@ -1641,7 +1795,7 @@ def merge_cases(cases, fam):
 def obs_is_feature(scn, where, name):
     for n, kind, _, _ in (scn['sub_decl'] if where == 'sub' else scn['top_decl']):
         if n == name:
-            return PK[kind]['type'] == 'feature'
+            return KINDS[kind]['type'] == 'feature'
     k = kind_of(name)
     return k is not None and k['type'] == 'feature' and name in ALLK
 
@@ -1867,6 +2021,9 @@ def tier_a_tasks(ck):
             if cross and not ck.thorough and mode != 'pnon':
                 continue        # quick: the cross variant only for built-in and plain project options
             specs.append(('fam_sub', dict(mode=mode, names=list(PK), cross=cross, dict_form=df, mstr=ms)))
+    for place in DEF_PLACES:
+        for cross, df, ms in sub_forms:
+            specs.append(('fam_default', dict(place=place, cross=cross, dict_form=df, mstr=ms)))
     specs.append(('fam_buildtype_top', dict()))
     specs.append(('fam_buildtype_top_argparse', dict()))
     if ck.thorough:
@@ -1942,7 +2099,7 @@ def prefix_counters(case):
 def work_a_task(task):
     (gname, kwargs), shard = task
     agg = {'n': 0, 'skipped_cases': 0, 'classes': set(), 'fams': {}, 'tot': {}, 'multi': 0, 'late_rej': 0, 'problems': [], 'sample': None,
-           'spell': {}, 'pspell': {}}
+           'spell': {}, 'pspell': {}, 'dd': {}}
     perkey = {}
     cases = list(globals()[gname](**kwargs))
     mine = [c for i, c in enumerate(cases) if i % NSHARD == shard]
@@ -1966,6 +2123,8 @@ def work_a_task(task):
             agg['spell'][sk] = agg['spell'].get(sk, 0) + 1
         for sk in prefix_counters(case):
             agg['pspell'][sk] = agg['pspell'].get(sk, 0) + 1
+        for sk in default_counters(case):
+            agg['dd'][sk] = agg['dd'].get(sk, 0) + 1
         if agg['sample'] is None and case['meta'].get('nsrc', 0) >= 3:
             agg['sample'] = {'scn': case['scn'], 'expected': case['exp']}
         if probs:
@@ -2032,6 +2191,17 @@ def tier_b_cases(ck):
     if not ck.thorough:
         ls = [c for c in ls if len(c['meta']['subset']) <= 2 or len(c['meta']['subset']) == 8]
     out += group_merge(ls, 'sub-late', lambda c: (tuple(c['meta']['subset']), c['meta']['a']))
+    # ---- the declared default in every shape: one project per (place, higher source, its value) carries every kind x default
+    for pi, place in enumerate(DEF_PLACES):
+        for cross, df, ms in ([(False, bool((seed + pi) % 2), False)] if not ck.thorough else
+                              [(False, False, False), (False, True, True), (True, True, False)]):
+            groups = {}
+            for c in fam_default(place, cross, df, ms):
+                groups.setdefault((c['meta']['source'] or '', -1 if c['meta']['oi'] is None else c['meta']['oi']), []).append(c)
+            for gk in sorted(groups):
+                m = merge_cases(groups[gk], 'default-' + place)
+                m['meta'].update(place=place, source=gk[0] or None, oi=None if gk[1] < 0 else gk[1])
+                out.append(m)
     # ---- buildtype
     bt = list(fam_buildtype_top())
     bt = [c for c in bt if c['meta']['a'] == seed % 3]       # tier A runs all three assignments
@@ -2324,10 +2494,13 @@ def main():
         sample = None
         spell = {}
         pspell = {}
+        dd = {}
         pending = []
         for (sp, sh), agg in zip(tasks, pmap(work_a_task, tasks)):
             for k, v in agg['pspell'].items():
                 pspell[k] = pspell.get(k, 0) + v
+            for k, v in agg['dd'].items():
+                dd[k] = dd.get(k, 0) + v
             stores += agg['n']
             skipped_cases += agg['skipped_cases']
             classes |= agg['classes']
@@ -2372,6 +2545,11 @@ def main():
         ck.part('tierA_prefix_spelling', families={fn: fv['cases'] for fn, fv in fams.items() if fn.startswith(('prefix-spelling', 'prefix-configure'))},
                 spellings=PREFIX_SPELLINGS, cases_by_command_source_spelling_row=dict(sorted(pspell.items())))
         require_prefix_spelling(ck, pspell, 'A', ('P', 'M', 'C'), PREFIX_SPELLINGS)
+        by_place, shapes, missing = default_part(dd)
+        ck.part('tierA_declared_default', families={fn: fv['cases'] for fn, fv in fams.items() if fn.startswith('default-')},
+                kinds={kn: [lit(v) for v in kv['vals']] for kn, kv in DK.items()}, by_place=by_place,
+                declared_default_in_effect_by_type_and_shape=shapes)
+        ck.require(not missing, 'declared-default dimension: no tier A case for %d cells, e.g. %s' % (len(missing), missing[:4]))
         ck.require(multi > 1000, 'too few multi-source cases in tier A')
         ck.require(late_rej > 0, 'no pending (late) invalid value was exercised')
         ck.require(tot['rejected_invalid'] > 100 and tot['weak'] > 0 and tot['strong'] > 10000, 'tier A comparison counters')
@@ -2424,6 +2602,14 @@ def main():
         ck.part('tierB_prefix_spelling', families={fn: fv['setups'] for fn, fv in fams.items() if fn.startswith(('prefix-spelling', 'prefix-configure'))},
                 cases_by_command_source_spelling_row=dict(sorted(pspell.items())))
         require_prefix_spelling(ck, pspell, 'B', ('P', 'M', 'C'), PREFIX_SPELLINGS)
+        dd = {}
+        for case in cases:
+            for sk in default_counters(case):
+                dd[sk] = dd.get(sk, 0) + 1
+        by_place, shapes, missing = default_part(dd)
+        ck.part('tierB_declared_default', setups={fn: fv['setups'] for fn, fv in fams.items() if fn.startswith('default-')},
+                by_place=by_place, declared_default_in_effect_by_type_and_shape=shapes)
+        ck.require(not missing, 'declared-default dimension: no tier B setup for %d cells, e.g. %s' % (len(missing), missing[:4]))
         ck.require(len(cases) > 500, 'too few tier B setups')
         ck.require(agree > 0, 'tier A / tier B cross-validation never ran')
         files, argv = b_tree(cases[len(cases) // 2]['scn'])
@@ -2483,13 +2669,19 @@ def main():
     ck.assume('tier A replicates the two inline cross-build filtering steps of Environment.__init__; tier B runs the real thing')
     ck.assume('unspecified and skipped: unprefixed opt=value for an option only the subproject declares; integer/free-array option without value:; '
               'repeated array elements; build.* options in native builds; sub:prefix; abs paths inside prefix; deprecated-option remapping')
+    ck.assume('the declared default: Build-options.md gives the default of an option without value: for string (empty), boolean (true), '
+              'combo (first choice), array with choices (all choices); for integer and for an array without choices it is silent: the '
+              'value is then only required to be a valid one; feature without value: is taken to be auto; a value: that is the empty '
+              'string / false / 0 / [] / the first choice / disabled is a declared default like any other')
     ck.finish(evaluations=evaluations, distinct_nontrivial=len(classes),
               rule='every subset of the documented sources (2^4 top level, 2^8 subproject) x option kinds x digit-scheme value assignments x '
                    'native/cross x spellings; buildtype/debug/optimization listings; prefix x directory sources; every invalid-value class '
                    'from every source; the prefix in every spelling of the path (p, p/, p//, p/., doubled inner slash) from every source and '
                    'from meson configure, all prefix-dependent directory defaults against the documented table; the command-line source in every spelling (-Dname=value, --name=value, --name value, boolean '
                    'switch) for meson setup and meson configure, buildtype/debug/optimization in every combination of spellings and '
-                   'both orders; tier A on a real OptionStore, tier B through meson setup / meson configure. distinct_nontrivial = distinct '
+                   'both orders; the declared default of every kind of project option in every shape (no value:, empty / zero / false / '
+                   'first choice / last choice / bounds / all choices) at top level, in a subproject, shadowing and yielding to a parent option, '
+                   'alone and under each single higher source with each value; tier A on a real OptionStore, tier B through meson setup / meson configure. distinct_nontrivial = distinct '
                    '(tier, family, winning source | rejection stage) classes observed',
               exhaustive=True, compared_strong=tot['strong'], compared_weak=tot['weak'], skipped_unspecified=tot['skipped'] + skipped_cases,
               invalid_rejected=tot['rejected_invalid'], invalid_overridden_accepted=tot['accepted_overridden_invalid'])
